@@ -937,6 +937,13 @@ func (s *State) addCmd(c *cmd) {
 		pr2 := s.printNetspocCmd(sup)
 		s.setCmdConfMode(pr2)
 	} else if c.typ.sub != nil {
+		// Leave mode of group-policy or username before toplevel
+		// command "webvpn" is given, since these modes have a
+		// subcommand "webvpn" as well.
+		if pr == "webvpn" && (strings.HasPrefix(s.subCmdOf, "group-policy ") ||
+			strings.HasPrefix(s.subCmdOf, "username ")) {
+			s.addChange("exit")
+		}
 		s.subCmdOf = pr
 	} else {
 		s.subCmdOf = ""
